@@ -1142,6 +1142,8 @@ func c14Corpus() []*c14Case {
 		fld("l", tdSlice(tdInt(8))), fld("r", tdArray(2, tdInt(8))), fld("m", tdMap(tdInt(8))), fld("p", tdPtr(tdInt(8))),
 		fld("t", tdStruct(fld("x", tdInt(8)))), fld("a", tdAny))
 	everyFull := `{"b":true,"i":-5,"u":7,"f":1.5,"s":"x","l":[1,2],"r":[3,4],"m":{"k":5},"p":6,"t":{"x":7},"a":{"q":[1]}}`
+	everyFullWire := "ok T11 62 b1 69 i-5 75 u7 66 F312e35 73 s78 6c L2 i1 i2 72 R2 i3 i4 6d M1 6b i5 70 P i6 74 T1 78 i7 61 I M1 71 I L1 I F31"
+	everyZero := "T11 62 b0 69 i0 75 u0 66 F30 73 s- 6c Ln 72 R2 i0 i0 6d Mn 70 Pn 74 T1 78 i0 61 In"
 	return []*c14Case{
 		mk("struct-merge", tdStruct(fld("a", tdInt(32)), fld("b", tdString), fld("c", tdSlice(tdInt(32)))), 0,
 			[]string{"", "", "ok T3 61 i1 62 s79 63 L1 i3"},
@@ -1170,9 +1172,9 @@ func c14Corpus() []*c14Case {
 		mk("array-of-struct-anylen", tdArray(2, ab8), 1, []string{"", "ok R2 T2 61 i0 62 i9 T2 61 i0 62 i0"},
 			`[{"a":1,"b":2},{"a":3,"b":4}]`, `[{"b":9}]`),
 		mk("array-surplus-dup", tdArray(1, tdInt(8)), 1, []string{"Edup"}, `[1,{"a":1,"a":2}]`),
-		mk("null-at-every-kind", every, 0, nil, everyFull,
+		mk("null-at-every-kind", every, 0, []string{everyFullWire, "", "", "ok " + everyZero}, everyFull,
 			`{"b":null,"i":null,"u":null,"f":null,"s":null}`, `{"l":null,"r":null,"m":null}`, `{"p":null,"t":null,"a":null}`),
-		mk("null-root-struct", every, 0, nil, everyFull, `null`, `{"i":1}`),
+		mk("null-root-struct", every, 0, []string{everyFullWire, "ok " + everyZero, ""}, everyFull, `null`, `{"i":1}`),
 		mk("dup-struct", tdStruct(fld("a", tdInt(8))), 0, []string{"Edup"}, `{"a":1,"a":2}`),
 		mk("dup-map", tdMap(tdInt(8)), 0, []string{"Edup"}, `{"k":1,"k":2}`),
 		mk("dup-any-nested", tdAny, 0, []string{"Edup"}, `{"x":{"y":1,"y":2}}`),
